@@ -141,6 +141,13 @@ pub mod ext_vec {
         ensures forall|p: spec_fn(T) -> bool| (forall|x: T| (call_ensures(f, (&x,), true) ==> #[trigger] p(x)) && (call_ensures(f, (&x,), false) ==> !p(x)))
                     ==> final(v)@ == #[trigger] old(v)@.filter(p);
 
+    /// Rule R20 (see DESIGN 2.1): `v.drain(..)` as the iterator expression of a `for` head becomes a Vec holding the drained
+    /// elements in order; the drained vector is left empty (ASSUMED: that is what a full-range drain consumed to its end does)
+    #[verifier::external_body]
+    pub fn drain_all<T>(v: &mut Vec<T>) -> (r: Vec<T>)
+        ensures r@ == old(v)@, final(v)@.len() == 0,
+    { v.drain(..).collect() }
+
     /// ASSUMED: slice::contains is membership w.r.t. `==` (for element types whose eq obeys its spec).
     pub assume_specification<T: PartialEq> [<[T]>::contains] (s: &[T], x: &T) -> (r: bool)
         ensures <T as vstd::std_specs::cmp::PartialEqSpec>::obeys_eq_spec() && (forall|a: T, b: T| (#[trigger] vstd::std_specs::cmp::PartialEqSpec::eq_spec(&a, &b)) <==> (a == b)) ==> r == s@.contains(*x);
